@@ -2,8 +2,8 @@
 //
 // Main-net configuration (the router start-height gate of utils.CheckRouterStartBlock only exists there), 4
 // validators, three chains: A, B (vote router) and C (HSC router: one of the three gated routers, with a
-// synthetic MPT state so that complete valid imports from C exist). Breadth-first exploration (depth quick 4 /
-// thorough 6, from two initial states: nothing registered / everything registered) over the events
+// synthetic MPT state so that complete valid imports from C exist). Breadth-first exploration (depth quick 5 /
+// thorough 7, from two initial states: nothing registered / everything registered) over the events
 //
 //	reg X            the quorum-completing approveRegisterSideChain (real governance path; for C followed by
 //	                 header_sync.SyncGenesisHeader of the synthetic genesis header)
@@ -114,7 +114,7 @@ func msg(x, y uint64, k int) []byte {
 
 func main() {
 	r := ev.Start("C21", "model_checking")
-	depth := r.QT(4, 6)
+	depth := r.QT(5, 7)
 	r.Require("import-accepted", "rejected:source-unregistered", "rejected:source-blacklisted", "rejected:target-unregistered",
 		"rejected:target-blacklisted", "rejected:router-not-active", "accepted-after-whitelisting", "non-operator-rejected", "vote-recorded")
 	vals := polyenv.Keys(nVal)
